@@ -27,6 +27,7 @@ try:
     def place_demo():
         # the meta's command usually copies out/<k>/demo… itself; provide out/<k>/ and, as a fallback, place the file
         shutil.copytree(src, os.path.join(wt, "out", k), dirs_exist_ok=True)
+        shutil.copytree(src, os.path.join(wt, "out2", k), dirs_exist_ok=True)
         if "cp " not in demo_cmd:
             for f in demo_src:
                 p = os.path.join(src, f)
